@@ -112,6 +112,16 @@ func c12Scenarios(tier string) []*Scenario {
 				}
 			}
 		}
+		if !thorough && R == 1 {
+			// two answering CER indexes (the thorough tier has the whole family): the late answer to
+			// the first CER lands exactly on the retransmission, whose own answer follows at once
+			for _, pair := range [][2]string{{"fail", "success"}, {"success", "fail"}, {"norc", "success"}, {"success", "disconnect"}} {
+				sc := append([]c12Act{}, silent...)
+				sc[0] = c12Act{Kind: pair[0], Delay: 2}
+				sc[1] = c12Act{Kind: pair[1], Delay: 0}
+				add(R, sc, []string{"raa"})
+			}
+		}
 		if R == 0 {
 			// no configured host addresses: the CER carries the connection's local address
 			c12LocalAddr = true
@@ -121,6 +131,9 @@ func c12Scenarios(tier string) []*Scenario {
 			la.Name += "/local-address"
 			out = append(out, la)
 			c12LocalAddr = false
+		}
+		if R == 0 {
+			out = append(out, c12Redial(bound))
 		}
 		if thorough && R >= 1 && R <= 2 {
 			// two answering indexes
@@ -216,6 +229,9 @@ func c12ScenarioSlow(R int, script []c12Act, extras []string, bound int, slow []
 						vs.TimeSleep(time.Duration(act.Delay) * c12Interval / 2)
 					}
 					deliver := func(kind string, b []byte) {
+						if c12Has(st.delivered, "disconnect") {
+							return // the peer has closed its side: it cannot send anything afterwards
+						}
 						st.delivered = append(st.delivered, kind)
 						st.deliveredAt = append(st.deliveredAt, vs.Now())
 						vs.Event("peer: delivers %s", kind)
@@ -371,6 +387,8 @@ func c12ScenarioSlow(R int, script []c12Act, extras []string, bound int, slow []
 			if !st.closedAtRet {
 				v = append(v, fmt.Sprintf("NewConn returned error %q but the transport had not been closed", st.retErr))
 			}
+		} else if peerGone := c12Has(st.delivered, "disconnect"); peerGone {
+			// the peer itself closed the connection after the handshake: nothing more is required
 		} else {
 			if st.conn.Closed {
 				v = append(v, fmt.Sprintf("handshake succeeded but the library closed the transport afterwards (delivered after success: %v; panics: %v)", st.delivered, s.Panics()))
@@ -391,6 +409,15 @@ func c12ScenarioSlow(R int, script []c12Act, extras []string, bound int, slow []
 	}
 	return &Scenario{Name: name, Body: body, Check: check, Outcome: outcome, Bound: bound,
 		Horizon: time.Duration(R+4) * c12Interval, Weight: R*3 + len(extras)*2}
+}
+
+func c12Has(l []string, k string) bool {
+	for _, x := range l {
+		if x == k {
+			return true
+		}
+	}
+	return false
 }
 
 func firstAt(st *c12State, kind string) time.Duration {
@@ -454,4 +481,89 @@ func c12CheckCER(raw []byte, localAddr bool) string {
 		}
 	}
 	return "Vendor-Specific-Application-Id {10415, auth 16777251} missing"
+}
+
+// c12Redial dials three times with ONE Client / StateMachine / *Settings that has no
+// configured host addresses, each time over a transport with a different local address: every
+// CER must carry the local address of its own connection, and the caller's Settings stay as
+// they were given.
+func c12Redial(bound int) *Scenario {
+	locals := []struct {
+		addr string
+		want []byte
+	}{
+		{"10.1.2.3:3868", refcodec.Address(1, []byte{10, 1, 2, 3})},
+		{"10.4.5.6:3868", refcodec.Address(1, []byte{10, 4, 5, 6})},
+		{"[2001:db8::7]:3868", refcodec.Address(2, net.ParseIP("2001:db8::7").To16())},
+		{"10.1.2.3:3868", refcodec.Address(1, []byte{10, 1, 2, 3})},
+	}
+	var verdict string
+	body := func() {
+		verdict = ""
+		settings := &sm.Settings{OriginHost: "cli", OriginRealm: "test", VendorID: 13, ProductName: "prod", FirmwareRevision: 7, OriginStateID: 77}
+		mach := sm.New(settings)
+		cli := &sm.Client{Handler: mach, Dict: dict.Default, MaxRetransmits: 0, RetransmitInterval: c12Interval,
+			AuthApplicationID: []*diam.AVP{diam.NewAVP(avp.AuthApplicationID, avp.Mbit, 0, datatype.Unsigned32(4))},
+		}
+		for i, l := range locals {
+			conn := vnet.NewConn(fmt.Sprintf("C%d", i))
+			conn.Pieces = 1
+			conn.Local = vnet.Addr{S: l.addr}
+			var cer []byte
+			vs.GoNamed(fmt.Sprintf("peer%d", i), true, func() {
+				p := &Peer{C: conn}
+				m := p.Next()
+				if m == nil || m.Hdr.Code != 257 {
+					return
+				}
+				cer = m.Raw
+				conn.Deliver(peerAnswer(m, 2001, true))
+			})
+			c, err := cli.NewConn(conn, "peer")
+			if err != nil || c == nil {
+				verdict = fmt.Sprintf("dial %d (local %s): NewConn failed: %v", i+1, l.addr, err)
+				return
+			}
+			recs, _, ferr := refcodec.Frame(cer[20:], nil)
+			if ferr != nil {
+				verdict = fmt.Sprintf("dial %d: CER not well-formed: %v", i+1, ferr)
+				return
+			}
+			var got []string
+			ok := false
+			for _, r := range recs {
+				if r.Code == 257 {
+					got = append(got, fmt.Sprintf("%x", r.Payload))
+					if bytes.Equal(r.Payload, l.want) {
+						ok = true
+					}
+				}
+			}
+			if !ok || len(got) != 1 {
+				verdict = fmt.Sprintf("dial %d of the same Client (no configured host addresses) from local address %s: the CER's Host-IP-Address AVPs are %v, want exactly [%x]", i+1, l.addr, got, l.want)
+				return
+			}
+			if len(settings.HostIPAddresses) != 0 || settings.HostIPAddress != nil {
+				verdict = fmt.Sprintf("dial %d modified the caller's Settings (HostIPAddresses now %v)", i+1, settings.HostIPAddresses)
+				return
+			}
+			c.Close()
+		}
+	}
+	// one deterministic schedule: the quantifier here is over dial histories, not schedules
+	return &Scenario{Name: "handshake/redial-same-client-other-local-address", Seq: func(r *SeqResult) {
+		s := vs.Run(nil, false, 40*c12Interval, false, body)
+		panics := s.Panics()
+		s.Teardown()
+		r.Cases += len(locals)
+		r.Distinct += len(locals)
+		if len(panics) > 0 {
+			verdict = "panic: " + strings.Join(panics, "; ")
+		}
+		if verdict != "" {
+			r.Violation = verdict
+			r.Case = map[string]interface{}{"scenario": "redial"}
+		}
+		r.Sample = "four dials of one Client without configured host addresses from 10.1.2.3, 10.4.5.6, [2001:db8::7], 10.1.2.3"
+	}}
 }
